@@ -207,7 +207,7 @@ PROPS['C03'] = {
                   'the attenuation consequences over that specification. The provenance half (engine) is outside this technique here and is stated as not covered.',
 }
 # the clock-read accounting of authorize_inner belongs to C10 (time budget), not to C04 / C09
-_CLOCK = [r'\.clock(@entry)?$', r'reads == evals']
+_CLOCK = [r'\.clock(@entry)?$', r'reads (\+ 1 )?== evals']
 PROPS['C04'] = {
     'units': [{'template': 'origin.rs', 'rlimit': 30, 'items': [r'^datalog::origin::']},
               {'template': 'authz.rs', 'rlimit': 60, 'items': [r'^token::authorizer::Authorizer::(authorize_inner|query_inner|query_all_inner)$'], 'exclude_obligations': _CLOCK},
@@ -265,8 +265,8 @@ PROPS['C10'] = {
     'units': [{'template': 'limits.rs', 'rlimit': 30, 'items': [r'^datalog::World::run_with_limits$', r'^token::authorizer::Authorizer::']},
               # only the clock-read accounting of the decision procedure (everything else of that function belongs to C04)
               {'template': 'authz.rs', 'rlimit': 60, 'items': [r'^token::authorizer::Authorizer::authorize_inner$'],
-               'exclude_obligations': [r'^(?!.*(\.clock(@entry)?$|reads == evals)).*$'], 'quick_canaries': ['clock-read-after-break']}],
-    'proved': 'Time checks of the decision procedure (Authorizer::authorize_inner, ghost counters): every evaluation of a check alternative or of a policy alternative is followed by a clock read and a comparison with the time limit before the result is used to leave the loop - the number of clock reads equals the number of evaluations at every loop head, at every break and at the end. '
+               'exclude_obligations': [r'^(?!.*(\.clock(@entry)?$|reads (\+ 1 )?== evals)).*$'], 'quick_canaries': ['clock-read-after-break']}],
+    'proved': 'Time checks of the decision procedure (Authorizer::authorize_inner, ghost counters): every evaluation of a check alternative or of a policy alternative is followed by a clock read and a comparison with the time limit before the result is used to leave the loop - the number of clock reads equals the number of evaluations at every loop head, at every break and at the end, and evaluations and clock reads strictly alternate (evaluation first). '
               'World::run_with_limits: on Ok the iteration counter grew by at most limits.max_iterations and the fact count is within limits.max_facts whenever at least one round derived something; '
               'every exit is Ok, an expression error or one of the three run-limit errors; the loop terminates within max_iterations + 1 rounds (decreases clause) whatever the rule engine does '
               '(its round is abstracted: any facts, any error, rule A1); the counter accumulates across calls (iterations += rounds). Authorizer::run is cached after success; authorize computes '
@@ -282,7 +282,7 @@ PROPS['C09']['units'].append({'template': 'limits.rs', 'rlimit': 30, 'items': [r
 # panic-freedom of expression evaluation / printing, of loading a token into an authorizer and of the decision procedure:
 # only the side conditions (index, pop, unwrap, overflow, cast, callee preconditions that guard a panic) count for C09;
 # the functional clauses of these units belong to C03 / C04 / C06 / C07
-_NOT_PANIC = [r'::ensures\.', r'::loop\d+\.', r'::closure\d+\.', r'no_shadow', r'reads == evals']
+_NOT_PANIC = [r'::ensures\.', r'::loop\d+\.', r'::closure\d+\.', r'no_shadow', r'reads (\+ 1 )?== evals']
 PROPS['C09']['units'].append({'template': 'expr.rs', 'rlimit': 30, 'items': [r'^datalog::expression::', r'^token::builder::expression::'], 'exclude_obligations': _NOT_PANIC, 'quick_canaries': ['display-unwrap']})
 PROPS['C09']['units'].append({'template': 'convops.rs', 'rlimit': 30, 'items': [r'^format::convert::v2::proto_op_to_token_op$'], 'exclude_obligations': _NOT_PANIC, 'quick_canaries': []})
 PROPS['C09']['units'].append({'template': 'convterm.rs', 'rlimit': 30, 'items': [r'^format::convert::v2::proto_id_to_token_term$'], 'exclude_obligations': _NOT_PANIC, 'quick_canaries': []})
